@@ -22,8 +22,10 @@ import hashlib
 import os
 import re
 import shutil
+import signal
 import sys
 import tempfile
+import time
 import traceback
 from pathlib import Path as PPath
 
@@ -278,6 +280,20 @@ def install_patches():
 
     # --- logical clock for ran_concurrently
     scheduler_mod.time = _LogicalTime()
+
+    # --- hash jobs handed to the queue (C15: none may be queued by a transaction that is rolled back)
+    from stepup.core.hash_queue import HashQueue
+
+    orig_submit = HashQueue.submit
+
+    def submit(self, path, old_hash, cause):
+        new = path not in self.in_flight
+        job = orig_submit(self, path, old_hash, cause)
+        if CUR is not None:
+            CUR.emit("hash_submit", path=str(path), new=bool(new), cause=getattr(cause, "name", str(cause)), task=CUR.task_id())
+        return job
+
+    HashQueue.submit = submit
 
     # --- begin wrapper
     orig_aenter = DBSession.__aenter__
@@ -652,6 +668,9 @@ async def _run_ops(ses: Session, h, job, label, cmd, ops, env, reads):
             )
             ses.emit("amend_result", job=job, step=label, carry_on=bool(carry_on), inp=sorted(kw.get("inp", [])))
             if not carry_on:
+                # a script may do some cleaning up (try/finally) before it terminates: op[2] = ops to run first
+                if len(op) > 2:
+                    await _run_ops(ses, h, job, label, cmd, op[2], env, reads)
                 raise ScriptAbort(1, "InputNotFoundError: Dynamic inputs are not available yet.")
         elif kind == "hold":
             await h.hold_dispatch(job)
@@ -674,6 +693,12 @@ async def _run_ops(ses: Session, h, job, label, cmd, ops, env, reads):
         elif kind == "unlink":
             world.delete(op[1])
             ses.emit("unlink", job=job, step=label, path=op[1], clock=_logical_ns())
+        elif kind == "unlink_declared":
+            # `rm -f <outputs>` before regenerating them
+            info = ses.launch_info[job]
+            for p in sorted(str(x) for x in info.out):
+                world.delete(p)
+                ses.emit("unlink", job=job, step=label, path=p, clock=_logical_ns())
         elif kind == "read_declared":
             info = ses.launch_info[job]
             for p in sorted(str(x) for x in info.inp):
@@ -745,6 +770,16 @@ def apply_edit(world: World, project: dict, edit: list, ses: Session | None = No
     if kind == "set":
         path, ver = edit[1], edit[2]
         world.write(path, source_text(path, ver))
+    elif kind == "swap":
+        # the file is replaced (rename) by another version of the same length that carries the old
+        # file's modification time and mode (rsync -t, cp -p + mv, tar x): only inode and content differ
+        path, ver = edit[1], edit[2]
+        ap = world.abspath(path)
+        old = os.stat(ap) if ap.is_file() else None
+        world.write(path, source_text(path, ver))
+        if old is not None:
+            os.chmod(ap, old.st_mode & 0o7777)
+            os.utime(ap, ns=(old.st_atime_ns, old.st_mtime_ns))
     elif kind == "raw":  # arbitrary content (e.g. user overwriting an output)
         world.write(edit[1], edit[2], edit[3] if len(edit) > 3 else None)
     elif kind == "del":
@@ -783,6 +818,9 @@ def apply_edit(world: World, project: dict, edit: list, ses: Session | None = No
         after = world.read(edit[1]) if len(edit) > 1 and isinstance(edit[1], str) and kind not in ("env",) else None
         ses.emit("ext_edit", edit=_jsonable(edit), changed=bool(before != after or kind in ("rmdir", "mvdir", "todir")),
                  clock=_logical_ns())
+
+
+CPU_LIMIT = float(os.environ.get("VERIF_DIRECTOR_CPU_LIMIT", "180"))
 
 
 class RunResult:
@@ -875,6 +913,12 @@ def run_serve(
         pending = sorted(during, key=lambda x: x[0])
 
         def hook():
+            h_ = ses.handler
+            if pending and h_ is not None and getattr(h_, "watcher", None) is not None and h_.watcher.busy_watching.is_set():
+                # the build is over: what was meant to happen during it does not happen at all
+                ses.emit("during_skipped", n=len(pending))
+                del pending[:]
+                return False
             if pending and ctl.nidle >= pending[0][0]:
                 _, edit = pending.pop(0)
                 apply_edit(world, project, edit, ses)
@@ -887,6 +931,9 @@ def run_serve(
         sockdir = tempfile.mkdtemp(prefix="vs-", dir=os.environ.get("VERIF_SCRATCH"))
         try:
             with DBSession.open(GRAPH_DB) as db:
+                # an SQL statement that never terminates (a recursive query over a cyclic graph) is
+                # interrupted once the CPU budget of this run is spent
+                db._con.set_progress_handler(lambda: 1 if time.process_time() > cpu_deadline else 0, 200000)
                 ses.emit("proc_start", tag=tag, cfg=_cfg_event(cfg), watch=do_watch, fresh=bool(fresh))
                 serve_task = asyncio.ensure_future(
                     serve(
@@ -916,13 +963,26 @@ def run_serve(
         finally:
             shutil.rmtree(sockdir, ignore_errors=True)
 
+    # A director that spins without ever yielding to the event loop (an endless loop in synchronous code)
+    # never reaches an idle point: a CPU-time alarm turns it into the same `hang` event.  The limit is
+    # CPU time of this process, far above what any director run of these projects needs.
+    def _cpu_alarm(signum, frame):
+        raise Hang(f"director used more than {CPU_LIMIT} s of CPU time in one run")
+
+    cpu_deadline = time.process_time() + CPU_LIMIT
+    old_handler = signal.signal(signal.SIGVTALRM, _cpu_alarm)
+    signal.setitimer(signal.ITIMER_VIRTUAL, CPU_LIMIT)
     try:
         result = loop.run_until_complete(main())
         res.rc = int(result.returncode.value)
-    except Hang:
+    except Hang as exc:
         res.hang = True
-        ses.emit("hang")
+        ses.emit("hang", why=str(exc)[:200])
     except BaseException as exc:  # noqa: BLE001
+        if time.process_time() > cpu_deadline:
+            # whatever the interrupted statement raised: the run did not end by itself
+            res.hang = True
+            ses.emit("hang", why=f"director used more than {CPU_LIMIT} s of CPU time in one run ({type(exc).__name__})")
         res.exc = f"{type(exc).__name__}: {exc}"
         cause = exc.__cause__
         if cause is not None:
@@ -932,6 +992,8 @@ def run_serve(
         ses.emit("director_exc", exc=type(exc).__name__, cause="NULL" if cause is None else type(cause).__name__, msg=res.exc[:800],
                  second_completion_of=m2.group(1) if m2 else "")
     finally:
+        signal.setitimer(signal.ITIMER_VIRTUAL, 0)
+        signal.signal(signal.SIGVTALRM, old_handler)
         CUR = None
         try:
             _cancel_all(loop)
